@@ -35,12 +35,21 @@ pub struct Call {
 pub fn calls_from_ops(ops: &[String]) -> Vec<Call> {
     ops.iter()
         .map(|l| {
-            let line = l.clone();
+            // `multi a ;; b ;; c` = one API call made of several storage calls, NOT wrapped in a
+            // transaction (the storage-level picture of mdk-core's multi-statement operations)
+            let parts: Vec<String> = match l.strip_prefix("multi ") {
+                Some(rest) => rest.split(";;").map(|x| x.trim().to_string()).collect(),
+                None => vec![l.clone()],
+            };
             Call {
                 label: l.split_whitespace().next().unwrap_or("").to_string(),
                 run: Box::new(move |s: &MdkSqliteStorage| {
-                    let t: Vec<&str> = line.split_whitespace().collect();
-                    store::exec(s, &t)
+                    let mut res = vec![];
+                    for line in &parts {
+                        let t: Vec<&str> = line.split_whitespace().collect();
+                        res.push(store::exec(s, &t));
+                    }
+                    res.join("+")
                 }),
             }
         })
